@@ -1,8 +1,14 @@
 #!/usr/bin/env python3
 """Development aid: run a list of (mutant, properties) pairs through mutate.py and summarise."""
 import subprocess, sys, json, os
+import shutil
 plan = json.load(open(sys.argv[1]))
 out = {}
+# freeze the harness sources so that edits made while the sweep runs do not leak into it
+snap = os.path.abspath("work/alt/harness-src")
+shutil.rmtree(snap, ignore_errors=True)
+shutil.copytree("harness", snap, ignore=shutil.ignore_patterns("target"))
+os.environ["VMVERIF_HARNESS_SRC"] = snap
 for m, pids in plan.items():
     r = subprocess.run(["./mutate.py", "mutants/%s.diff" % m] + pids, capture_output=True, text=True)
     res = [l for l in r.stdout.splitlines() if l.startswith("== ") or l.startswith("SUMMARY")]
